@@ -120,6 +120,20 @@ CLAIMED["C07"] = dict(
          "harness doors verif::udp / verif::metrics",
     design="DESIGN.md 5 C07")
 
+CLAIMED["C08"] = dict(
+    text="Coq theorems on the model of Http1Codec::listen (Model/Http1.v) for ANY head parser that is stable under extension of its "
+         "input: every segmentation of the same client byte stream yields the same outcome (same request head, same following bytes; "
+         "segmentation_invariant), that outcome is the one the stream determines (Spec: request found / parse error / undecided at the "
+         "1024-byte limit refused / closed before a complete head), the loop never runs out of fuel (never spins), the upload side "
+         "receives exactly the remaining bytes in non-empty chunks; the code as found is proved to spin on any cut head. The executable "
+         "model's parser is proved stable. Tied by translator facts (Http1Facts.v) and by the differential run of the real codec on "
+         "in-memory streams: every 1-cut, random 2/3-cuts, byte-at-a-time, line cuts, truncated streams, size and header-count limits, "
+         "near-miss invalid heads (metamorphic: same as whole delivery), response well-formedness, read-poll count",
+    note="partial: httparse is a parameter of the proof (assumed left-to-right stable; checked only by the differential run); the "
+         "download direction and the EOF/dropped-sink arbitration are exercised by the run, not proved; trusted: Coq kernel, "
+         "Model/Http1.v, translator facts, extraction + driver, harness door verif::http1",
+    design="DESIGN.md 5 C08")
+
 PENDING_REASON = "check under construction in this round (designed in DESIGN.md, not yet wired into ./check)"
 
 
